@@ -283,14 +283,22 @@ pub fn history(seed: u64, cases: u32, dir: &str, out: &str) {
         let mut rejected_before_accept = false;
         let mut any_rejected = false;
         let mut texts = vec![];
+        // one in eight steps runs on a thread of its own (a result must not depend on the thread either)
+        let on_thread: Vec<bool> = ops.iter().map(|_| src.chance(32)).collect();
+        let mut used_thread = false;
         for (step, (i, b)) in ops.iter().enumerate() {
             let g = &pool[*i];
             let text = match b {
                 Some(j) => &g.broken[*j],
                 None => &g.text,
             };
-            texts.push(json!({"text": text, "derives": g.derives, "broken_variant": b.is_some()}));
-            let r = compile(text, &g.derives);
+            texts.push(json!({"text": text, "derives": g.derives, "broken_variant": b.is_some(), "on_new_thread": on_thread[step]}));
+            let r = if on_thread[step] {
+                used_thread = true;
+                std::thread::scope(|sc| sc.spawn(|| compile(text, &g.derives)).join().unwrap_or_else(|_| Err("panic".into())))
+            } else {
+                compile(text, &g.derives)
+            };
             match (b, r) {
                 (Some(_), Err(_)) => any_rejected = true,
                 (Some(_), Ok(_)) => {}
@@ -326,6 +334,9 @@ pub fn history(seed: u64, cases: u32, dir: &str, out: &str) {
         if ops.len() >= 4 {
             classes.push("history_len>=4");
         }
+        if used_thread {
+            classes.push("step_on_new_thread");
+        }
         acc.ok(&key, rejected_before_accept, &classes, || json!({"history": ops.iter().map(|(i, b)| format!("g{}{}", i, if b.is_some() { " (rejected variant)" } else { "" })).collect::<Vec<_>>()}));
         Ok(())
     });
@@ -342,8 +353,12 @@ pub fn replay_history(rec: &serde_json::Value) -> Option<serde_json::Value> {
     for (step, op) in ops.iter().enumerate() {
         let text = op["text"].as_str()?;
         let derives: Vec<String> = op["derives"].as_array().map(|a| a.iter().map(|x| x.as_str().unwrap_or("").to_string()).collect()).unwrap_or_default();
-        let settings = CodegenSettings { derives: derives.clone(), ..Default::default() };
-        let got = verif_core::util::catch(|| PGrammar::from_str(text).ok().and_then(|g| g.generate_code(&settings).ok()).map(|t| t.to_string())).ok().flatten();
+        let ds = derives.clone();
+        let run = move || {
+            let settings = CodegenSettings { derives: ds, ..Default::default() };
+            verif_core::util::catch(|| PGrammar::from_str(text).ok().and_then(|g| g.generate_code(&settings).ok()).map(|t| t.to_string())).ok().flatten()
+        };
+        let got = if op["on_new_thread"].as_bool().unwrap_or(false) { std::thread::scope(|sc| sc.spawn(run).join().ok().flatten()) } else { run() };
         if op["broken_variant"].as_bool().unwrap_or(false) {
             continue;
         }
